@@ -83,6 +83,31 @@ def check_kernel(sc):
         Plat = Ph
         pv = rbm.prob_v_given_h(H.clone()).double()
     Pv = product_table(pv, V)                          # (L, D): P(v' | latent)
+    # the public conditional samplers, called directly (without and with an out= buffer): a 0/1 draw of the right shape from the
+    # conditional-probability table of the same arguments
+    if sc["type"] == "density":
+        samplers = [("sample_h_given_v", (V,), ph), ("sample_a_given_v", (V,), pa), ("sample_v_given_ha", (hh, aa), pv)]
+    else:
+        samplers = [("sample_h_given_v", (V,), ph), ("sample_v_given_h", (H,), pv)]
+    mon = Monitor([0.3, 0.71, 0.5, 0.11, 0.93, 0.02, 0.999])
+    real_bernoulli = torch.bernoulli
+    try:
+        torch.bernoulli = mon
+        for use_out in (False, True):
+            for name, args, table in samplers:
+                mon.calls = []
+                buf = torch.full(tuple(table.shape), 7.0, dtype=torch.double) if use_out else None
+                got = getattr(rbm, name)(*[a_.clone() for a_ in args], **({"out": buf} if use_out else {}))
+                require(isinstance(got, torch.Tensor) and got.shape == table.shape and bool(torch.all((got == 0) | (got == 1))), "kernel:sampler-values",
+                        f"{name}({'out=buffer' if use_out else ''}) did not return a 0/1 array of the shape of its conditional-probability table")
+                if mon.calls:
+                    pc, d = mon.calls[-1]
+                    require(len(mon.calls) == 1 and bool(torch.all((pc.reshape(table.shape) - table).abs() <= 1e-12)) and torch.equal(got.double(), d.reshape(table.shape)),
+                            "kernel:sampler-law", f"{name} does not draw each unit once from its conditional probability")
+                if use_out:
+                    require(torch.equal(buf, got.double()), "kernel:sampler-out", f"{name}(out=buffer) did not place the draw in the buffer")
+    finally:
+        torch.bernoulli = real_bernoulli
     tol = lambda ref: 1e-7 * ref + 1e-12
     ref_lat = torch.softmax(lw, dim=1)
     require(bool(torch.all((Plat - ref_lat).abs() <= tol(ref_lat))), "kernel:latent-conditional",
